@@ -12,6 +12,8 @@
  *   reg_tm <id> <usec> | cancel_tm <id> | reset_tm <id> | clock <usec> | interrupt
  *   poll <adv_usec> <fd:bits,...|->    queue the answer of the next poll call (bits from rweh)
  *   pollintr <adv_usec>                queue "poll fails with EINTR"
+ *   pollsig <adv_usec>                 queue "a signal arrives during poll (any timeout), its handler calls
+ *                                      events_interrupt(), poll fails with EINTR"
  *   run                                events_run()
  * In-callback ops: ri:<id>:<prio> ci:<id> rn:<id>:<fd>:<r|w> cn:<fd>:<r|w> rt:<id>:<usec>
  *   ct:<id> xt:<id> int clk:<usec> done
@@ -19,7 +21,7 @@
  * cancelled/reset only while live; otherwise the op is answered `skip` without calling the code.
  *
  * Output, one line per input line:  <trace tokens> | <state>
- *   tokens: <op>:<res>  run  cb:<id>  end:<rc>  poll:<timeout>:<adv>:<fd/events/revents,..>:<ok|eintr|stuck>  ret:<rc>
+ *   tokens: <op>:<res>  run  cb:<id>  end:<rc>  poll:<timeout>:<adv>:<fd/events/revents,..>:<ok|eintr|stuck|intr>  ret:<rc>
  *   state : nfds, fdscanpos, fds[], S[], minq, the 32 queues, live timers, clock, interrupt flag
  *
  * -DHC_BLACKBOX (used when the white-box build no longer compiles, e.g. after a static or a member of a
@@ -80,7 +82,7 @@ static struct script scripts[MAXID];
 
 /* Scripted poll answers. */
 struct pans {
-	int eintr;
+	int eintr;			/* 0 answer, 1 EINTR, 2 EINTR after the handler called events_interrupt() */
 	unsigned long long adv;
 	int n;
 	int fd[64];
@@ -210,9 +212,15 @@ __wrap_poll(struct pollfd * pfds, nfds_t n, int timeout)
 			nready++;
 	}
 	if (a->eintr || (nready == 0 && timeout < 0)) {
-		/* Nothing is written; with an infinite wait and nothing ready a signal arrives. */
+		/*
+		 * Nothing is written.  With an infinite wait and nothing ready a
+		 * signal arrives ("stuck"); a scripted signal ("intr") arrives
+		 * whatever the timeout.  Its handler does what a real one would
+		 * do: it calls events_interrupt() while poll is being executed,
+		 * so the library's flag is set when poll returns.
+		 */
 		clock_us += adv;
-		if (!a->eintr) {
+		if (a->eintr != 1) {
 			events_interrupt();
 			BB_INTR(1);
 		}
@@ -224,7 +232,7 @@ __wrap_poll(struct pollfd * pfds, nfds_t n, int timeout)
 			outbits(pfds[j].events);
 			outc("/-");
 		}
-		outc(":%s", a->eintr ? "eintr" : "stuck");
+		outc(":%s", a->eintr == 1 ? "eintr" : a->eintr == 2 ? "intr" : "stuck");
 		errno = EINTR;
 		return (-1);
 	}
@@ -637,6 +645,8 @@ main(void)
 			queue_poll(0, strtoull(hc_tok[1], NULL, 10), hc_tok[2]);
 		else if (hc_is("pollintr", 1))
 			queue_poll(1, strtoull(hc_tok[1], NULL, 10), NULL);
+		else if (hc_is("pollsig", 1))
+			queue_poll(2, strtoull(hc_tok[1], NULL, 10), NULL);
 		else if (hc_is("run", 0)) {
 			cbcount = 0;
 			out("run");
